@@ -143,6 +143,11 @@ class Parameter
         return keeper.isInitialized();
     }
 
+    bool hasSameTypeAs(const Parameter& p) const
+    {
+        return keeper.hasSameTypeAs(p.keeper);
+    }
+
     template <template <class> class F, class Q> inline bool isCondition(F<Q> cond) const
     {
         return keeper.isCondition(cond);
@@ -277,6 +282,10 @@ class ParametersSet
             if (!pmap.count(each.first))
             {
                 pmap[each.first] = each.second;
+            }
+            else if (!pmap[each.first].hasSameTypeAs(each.second))
+            {
+                throw wrong_parameter_type_error(each.first + " has a value of a wrong type");
             }
         }
     }
